@@ -909,7 +909,16 @@ func TestVerif_C18_ContinualRestart(t *testing.T) {
 				st.Fail(rt, "C18/continual/host-candidate-missing", "second cycle: not every current address got a host candidate: events %v (%s)", snapshot()[atRestart:], desc)
 			}
 			if flapIface != "" {
-				time.Sleep(8 * time.Millisecond) // ≥ 20 monitor intervals of the second cycle without the address
+				// the monitor of the second cycle must have looked at the interface list while the address was away
+				// (before its first poll it still compares against what the previous cycle knew: not claimed either way)
+				polls := fnIfaceCalls.Load()
+				for d := time.Now().Add(20 * time.Second); fnIfaceCalls.Load() < polls+4; {
+					if time.Now().After(d) {
+						st.Inconclusive()
+						rt.Fatalf("VERIF-INCONCLUSIVE: the network monitor did not poll within 20 s")
+					}
+					time.Sleep(200 * time.Microsecond)
+				}
 				fn.addIface(fnIface{Name: flapIface, Up: true, Addrs: []string{flapAddr}})
 				if !waitFor(u2, []string{flapAddr}) {
 					st.Fail(rt, "C18/continual/returning-address-not-gathered", "an address of the first cycle that went away before the Restart and came back during the second cycle got no host candidate within 20 s: events %v (%s)", snapshot()[atRestart:], desc)
